@@ -357,6 +357,20 @@ def pressure(tier):
             c = Case('pressure_increasing_test', [inp], {}, n=n, pat={'inp': 'p' * n}, meta={'class': 'profile', 'values': list(vals)},
                      label=f'pressure_increasing_test({list(vals)})')
             yield c, None
+    # long profiles (a real cast has hundreds of levels): a steady descent / ascent with a dip, a plateau and a reversal near either end
+    for n in (21, 45):
+        base = list(range(n))
+        variants = {'steady': base, 'dip near the start': base[:3] + [1] + base[4:], 'plateau in the middle': base[:n // 2] + [base[n // 2 - 1]] + base[n // 2 + 1:],
+                    'reversal at the end': base[:-1] + [n - 3], 'upcast with a dip': [n - v for v in base[:n - 4]] + [5, 3, 2, 1],
+                    # the net movement is carried by one large step (a sparsely sampled dive) against many small opposite ones (a densely sampled climb)
+                    'one large step against many small ones': [0, 10 * n] + [10 * n - i for i in range(1, n - 1)],
+                    'two large steps against many small ones': [5 * n, 0, -5 * n] + [-5 * n + i for i in range(1, n - 2)]}
+        for vname, vals in variants.items():
+            cells = [El(X.num(v), False) for v in vals]
+            inp = Vec.fresh(cells, kind='nd', dtype='f8', owner='inp')
+            c = Case('pressure_increasing_test', [inp], {}, n=n, pat={'inp': 'p' * n}, meta={'class': 'long-profile', 'values': list(vals)},
+                     label=f'pressure_increasing_test({n} levels, {vname})')
+            yield c, None
 
 
 # ------------------------------------------------------------------------------------------------
